@@ -131,7 +131,45 @@ def map_err_summary(engine, fr, callee, args, site, ret_ty):
     return engine.mk_enum("Result", "Err", [res])
 
 
-SUMMARIES = [(r"Result::map_err$|Result<.*>::map_err$", map_err_summary)]
+def map_summary(engine, fr, callee, args, site, ret_ty):
+    """Option::map / and_then, Result::map / and_then with a closure whose body is in the dump: the closure is executed on the payload
+    (so `.map(|k| k.guid)` is seen to hand on the guid only); the other variant is handed on."""
+    if len(args) != 2:
+        return NotImplemented
+    m = re.search(r"(Option|Result)(?:<.*>)?::(map|and_then)$", callee)
+    if not m:
+        return NotImplemented
+    kind, op = m.group(1), m.group(2)
+    v, clos = args[0], args[1]
+    if isinstance(clos, Ref):
+        try:
+            clos = engine.deref(clos)
+        except Exception:
+            return NotImplemented
+    if not (isinstance(clos, Agg) and clos.kind == "closure" and clos.body_path and clos.body_path in engine.idx.files):
+        return NotImplemented
+    good, bad = ("Some", "None") if kind == "Option" else ("Ok", "Err")
+    gi = 1 if kind == "Option" else 0
+    if isinstance(v, Agg) and v.variant == bad:
+        return v
+    if isinstance(v, Agg) and v.variant == good:
+        payload = v.fields[0]
+    elif isinstance(v, Sym):
+        lab = engine.choose([("map-" + good, v.discr() == gi), ("map-" + bad, v.discr() == 1 - gi)])
+        if lab == "map-" + bad:
+            return engine.mk_enum(kind, bad, [] if kind == "Option" else [v.child(("v", "Err", 0))])
+        payload = v.child(("v", good, 0))
+    else:
+        return NotImplemented
+    body = engine.idx.body(clos.body_path)
+    if isinstance(payload, Sym) and payload.ty is None:
+        payload.ty = body.arg_types.get(2)          # the closure's parameter type: keeps type-directed recognition of Key objects
+    engine.inlined.add(clos.body_path)
+    res = engine.run_body(body, [clos, payload], 2)
+    return engine.mk_enum(kind, good, [res]) if op == "map" else res
+
+
+SUMMARIES = [(r"Result::map_err$|Result<.*>::map_err$", map_err_summary), (r"(Option|Result)(<.*>)?::(map|and_then)$", map_summary)]
 
 
 class Analysis:
